@@ -187,6 +187,24 @@ Proof.
   apply get_ofv_row. exact (ofv_designated_lemma t g c entries Hd Hg H0 HF H).
 Qed.
 
+(* ... and so are the run's parameter estimates (results._parse_parameter_estimates, one estimation table): the
+   entries of the designated row (ext_final_row), minus the columns that row -1000000006 (or, without it, the model)
+   marks as fixed, renamed through the model's name map; unless the last printed iteration carries no value at all,
+   in which case NaN is reported for every estimate. *)
+Theorem pe_designated : forall (t : table) (g : frame) (pfix : list (text * bool)) (nm : list (text * text))
+                               (fpe : list (text * cell)) (cols : list text) (rows : list (nat * cell * list cell))
+                               (sd : option (list (text * cell))),
+    design_of t = None -> ext_data_frame (tb_frame t) = ROk g ->
+    g_has_iter0 g = true -> g_final_obj_eq_last g = true ->
+    parse_parameter_estimates [t] pfix nm = ROk (fpe, cols, rows, sd) ->
+    exists fx,
+      get_fixed_parameters g pfix nm = ROk fx /\
+      ((exists fe, final_parameter_estimates g = ROk fe /\
+                   fpe = map (fun nc => (rename_with nm (fst nc), snd nc))
+                             (drop_names (fixed_names_of fx (drop_first_last (f_cols g))) fe))
+       \/ forallb (fun nc => is_nan (snd nc)) fpe = true).
+Proof. exact pe_designated_lemma. Qed.
+
 (* ---- cov / cor / coi ---------------------------------------------------------------------------------------- *)
 
 (* cov_drop_fixed_exact: CovTable.data_frame is the full matrix in pharmpy's parameter order restricted to
